@@ -17,7 +17,7 @@ from .ccfg import build_c_cfg, loop_heads
 from .core import AnalysisError
 from .linexpr import Env, IR, Lin, c_ir, py_ir, to_lin
 from .pycfg import Graph, Node, build_py_cfg
-from .pyfacts import Repo, dotted, inline_optional_classifiers, norm, walk_no_nested
+from .pyfacts import Repo, dotted, inline_optional_classifiers, inline_tail_return_helpers, norm, walk_no_nested
 
 RUN_REL = 'flipjump/interpreter/fjm_run.py'
 READER_REL = 'flipjump/fjm/fjm_reader.py'
@@ -68,6 +68,7 @@ class PyLoop:
     def __init__(self, repo: Repo, fname: str, roles: Dict[str, str]):
         # an extracted "finished? which cause, or None" helper reads like the tests it was extracted from
         self.fn = inline_optional_classifiers(repo, RUN_REL, repo.func(RUN_REL, fname))
+        self.fn = inline_tail_return_helpers(repo, RUN_REL, self.fn)          # an extracted `read the word, or fall back` helper reads like its block
         found = discover_roles_py(self.fn)
         roles = {**roles, **{k: v for k, v in found.items() if k in roles}}
         self.repo, self.fname, self.roles = repo, fname, roles
@@ -253,7 +254,8 @@ class PyLoop:
             self.unrecognised.append(f'write_bit at unclassified address: {ast.unparse(c)}')
             return []
         if name == 'mem.read_bit':
-            return []
+            root, delta = self.classify_addr(c.args[0], 'bit')
+            return ['READ_TARGET'] if root == 'f' and delta == 0 else []         # read half of write_bit(f, not read_bit(f))
         if name == 'statistics.register_op':
             return ['COUNT']
         if name in ('_handle_output', '_handle_input'):
